@@ -341,6 +341,10 @@ def elim_case(rng) -> Dict[str, Any]:
             break
     c = fn(rng)
     c["family"] = name
+    if c["terms"] and rng.random() < 0.06:
+        # the same term twice in the list (exact copy): each copy still has to be transformed on its own
+        t = rng.choice(c["terms"])
+        c["terms"].insert(rng.randint(0, len(c["terms"])), {"c": dict(t["c"]), "k": t["k"]})
     hint = c.pop("refine_hint", None)
     c["refine"] = hint if (hint is not None and rng.random() < 0.8) else (rng.random() < 0.55)
     c["simplify"] = rng.random() < 0.5
